@@ -54,13 +54,13 @@ def observe(t):
             logs.append((8, int(rc["ra"])))
     return rv, logs
 
-def run_profiles(dirs, jobs=None):
+def run_profiles(dirs, jobs=None, timeout=1800):
     """{pkg: {'debug': result, 'release': result}} - both profiles of all packages in one parallel batch"""
     import concurrent.futures as cf
     out = {n: {} for n in dirs}
     with cf.ThreadPoolExecutor(max_workers=2) as ex:
-        fd = ex.submit(sway.run_pkgs, list(dirs.values()), False, 1800, jobs)
-        fr = ex.submit(sway.run_pkgs, list(dirs.values()), True, 1800, jobs)
+        fd = ex.submit(sway.run_pkgs, list(dirs.values()), False, timeout, jobs)
+        fr = ex.submit(sway.run_pkgs, list(dirs.values()), True, timeout, jobs)
         rd, rr = fd.result(), fr.result()
     for n, d in dirs.items():
         out[n]["debug"], out[n]["release"] = rd[d], rr[d]
